@@ -225,6 +225,17 @@ func newScenario(g *G) *scenario {
 	} else {
 		origin = "hand"
 		start = handGenome(g, 0)
+		if len(start.Traits) >= 2 && g.chance(0.6) {
+			// traits listed in another order than ascending ids (e.g. 1,3,2 - the order of the library's own test genome);
+			// the crossovers index traits by id offset, so such a lineage is evolved by mutation only
+			k := g.intn(len(start.Traits) - 1)
+			if len(start.Traits) >= 3 && g.chance(0.7) {
+				k = len(start.Traits) - 2 // smallest id stays first: 1,3,2
+			}
+			start.Traits[k], start.Traits[len(start.Traits)-1] = start.Traits[len(start.Traits)-1], start.Traits[k]
+			opts.MutateOnlyProb = 1.0
+			origin += "+traitperm"
+		}
 	}
 	rand.Seed(g.seed63())
 	pop, err := genetics.NewPopulation(start, opts)
